@@ -224,8 +224,51 @@ def rule_fresh(run):
     run.shape(len(inc) == 1, 'mulgrids.new_dict_key :: counter advances', 'increment not found', where=fi.where(ws[0]))
 
 
+def rule_unfix(run):
+    run.rule('UNFIX', "unfix_blockname prints the last two characters as a Fortran I2 integer (through int(), width 2), so "
+             "'00' becomes ' 0'; fix_blockname fills exactly the blank fourth column between two digits", floor=2)
+    prog = run.prog
+    uf = prog.func('mulgrids.unfix_blockname')
+    rets = [r for r in walk_no_nested(uf.node) if isinstance(r, ast.Return) and r.value is not None]
+    key = "mulgrids.unfix_blockname :: digit pair printed through int() with width 2"
+    if len(rets) != 1:
+        run.unknown(key, '%d returns' % len(rets), where=uf.where())
+    else:
+        v = rets[0].value
+        conv = v.body if isinstance(v, ast.IfExp) else v
+        ints = [c for c in ast.walk(conv) if isinstance(c, ast.Call) and isinstance(c.func, ast.Name) and c.func.id == 'int'
+                and c.args and norm(c.args[0]) in ('name[3:5]', 'name[3:]')]
+        w2 = any(isinstance(c, ast.Constant) and isinstance(c.value, str) and ('%2d' in c.value or ':2d' in c.value or ':>2' in c.value) for c in ast.walk(conv)) \
+            or any(isinstance(c, ast.Call) and call_name(c) == 'rjust' and c.args and norm(c.args[0]) == '2' for c in ast.walk(conv))
+        if ints and w2: run.ok(key, norm(conv), where=uf.where(rets[0]))
+        elif not ints:
+            run.violated(key, "the un-repaired name is built as `%s`, without converting the digit pair through int(): a name ending in '00' "
+                         "does not come out as the simulator prints it ('xxx 0')" % norm(conv), where=uf.where(rets[0]))
+        else:
+            run.violated(key, 'the integer is not printed in a 2-column field: `%s`' % norm(conv), where=uf.where(rets[0]))
+        if isinstance(v, ast.IfExp):
+            r_ = norm(v.test) in ('name[3:5].isdigit()',)
+            run.shape(r_, 'mulgrids.unfix_blockname :: applies when the last two characters are digits', 'condition `%s`' % norm(v.test), where=uf.where(rets[0]))
+            run.check(norm(v.orelse) == 'name', 'mulgrids.unfix_blockname :: other names unchanged', 'else-branch returns %s' % norm(v.orelse), where=uf.where(rets[0]))
+    fx = prog.func('mulgrids.fix_blockname')
+    ifs = [n for n in walk_no_nested(fx.node) if isinstance(n, ast.If)]
+    key = 'mulgrids.fix_blockname :: blank 4th column between digits in columns 3 and 5 becomes 0'
+    if len(ifs) == 1:
+        conds = set(norm(x) for x in (ifs[0].test.values if isinstance(ifs[0].test, ast.BoolOp) and isinstance(ifs[0].test.op, ast.And) else [ifs[0].test]))
+        want = set(['name[2].isdigit()', 'name[4].isdigit()', "name[3] == ' '"])
+        body = norm(ifs[0].body[0]) if ifs[0].body else ''
+        good_body = body in ("return '0'.join((name[0:3], name[4:5]))", "return name[0:3] + '0' + name[4:5]", "return name[0:3] + '0' + name[4]")
+        if conds == want and good_body: run.ok(key, where=fx.where(ifs[0]))
+        elif conds != want and (conds < want or want < conds):
+            run.violated(key, 'the repair condition is %s' % sorted(conds), where=fx.where(ifs[0]))
+        elif conds == want and not good_body: run.unknown(key, 'repair expression `%s` not recognised' % body, where=fx.where(ifs[0]))
+        else: run.unknown(key, 'condition %s not recognised' % sorted(conds), where=fx.where(ifs[0]))
+    else: run.unknown(key, 'shape not recognised', where=fx.where())
+
+
 def check(run):
     run.guarded('SLICE', rule_slice)
     run.guarded('LENGUARD', rule_lenguard)
     run.guarded('AVOID', rule_avoid)
     run.guarded('FRESH', rule_fresh)
+    run.guarded('UNFIX', rule_unfix)
